@@ -7,7 +7,10 @@ A case is a PAIR of values (v, w) (or a memoize call sequence: each call is the 
   sequences  ["T",items] tuple  ["L",items] list  ["Q",maxlen|null,items] deque  ["B",items] bytearray
              ["A",code,items] array.array  ["N",masked,dtype,shape,items(,layout)] ndarray (items in logical C order;
              layout "C" | "F" Fortran-ordered | "T" transposed view | "S" non-contiguous slice | "R" reversed view:
-             only the Python side honours it when building the real array - the Coq model never sees it)
+             only the Python side honours it when building the real array - the Coq model never sees it; for a MASKED
+             array (masked=1) the same slot says how the mask is given when NO element is masked: "A" explicit bool
+             array (default) | "N" no mask argument (mask is numpy.ma.nomask) | "F" mask=False | "S" shrink_mask():
+             numpy.ma treats nomask and an all-False mask as the same value, and so does the model)
   sets       ["S",items] set  ["F",items] frozenset            (items in insertion order)
   mappings   ["D",pairs] dict  ["O",pairs] OrderedDict  ["E",factory|null,pairs] defaultdict  ["C",pairs] Counter
   pandas     ["SR",name_atom,dtype,idx_atoms,val_atoms]  ["DF",[[col_atom,dtype,val_atoms],..],idx_atoms]
@@ -133,7 +136,18 @@ def build(t):
             data = np.array([0 if mask[j] else build(x) for j, x in enumerate(items)], dtype=np.dtype(dt))
         data = data.reshape(tuple(shape))
         if masked:
-            return np.ma.masked_array(data, mask=np.array(mask, dtype=bool).reshape(tuple(shape)))
+            mode = t[5] if len(t) > 5 else "A"
+            if any(mask) or mode == "A":
+                return np.ma.masked_array(data, mask=np.array(mask, dtype=bool).reshape(tuple(shape)))
+            if mode == "N":
+                out = np.ma.masked_array(data)
+            elif mode == "F":
+                out = np.ma.masked_array(data, mask=False)
+            else:
+                out = np.ma.masked_array(data, mask=np.zeros(tuple(shape), dtype=bool))
+                out.shrink_mask()
+            assert mode == "F" or out.mask is np.ma.nomask, (t, out.mask)   # (mask=False: numpy version dependent)
+            return out
         return _with_layout(data, t[5] if len(t) > 5 else "C")
     if k == "S":
         out = set()
@@ -651,6 +665,8 @@ def relayout(rng, t):
             t = t[:5] + [lay]
             if t[2] == "|O":
                 t[4] = [relayout(rng, x) for x in t[4]]
+        elif not any(x[0] == "m" for x in t[4]):
+            t = t[:5] + [rng.choice(["A", "N", "F", "S"])]
         return t
     if k in ("T", "L", "S", "F"):
         return [k, [relayout(rng, x) for x in t[1]]] if k in ("T", "L") else t
@@ -779,6 +795,8 @@ def g_ndarray(rng, masked=False):
         dt = "|O"
         items = [g_val(rng, 1, allow_nd=False) for _ in range(n)]
     if masked and kind != "O":
+        if rng.random() < 0.4:   # a MaskedArray without any masked element, mask given in one of four ways
+            return ["N", 1, dt, shape, items, rng.choice(["A", "N", "F", "S"])]
         items = [["m"] if rng.random() < 0.4 else x for x in items]
         return ["N", 1, dt, shape, items]
     return ["N", 0, dt, shape, items]
@@ -1431,6 +1449,34 @@ def generate(rng, tier, mult):
         nm = near_miss(rng, a)
         if nm is not None:
             pair(relayout(rng, a), relayout(rng, nm), "layout-near")
+    # ---- masked arrays whose mask is numpy.ma.nomask (no mask argument / mask=False / shrink_mask()) vs an explicit
+    #      all-False mask: the same value; and different data under nomask: different values
+    def _ma(dt, shape, items, mode):
+        return ["N", 1, dt, shape, items, mode]
+
+    def _wraps(x):
+        return [x, ["L", [x, ["i", 1]]], ["D", [[["s", "k"], x]]], ["T", [["s", "a"], ["L", [x]]]]]
+
+    ma_bases = [("<i8", [3], _i(1, 2, 3), _i(1, 5, 6)), ("<f8", [2, 2], [["f", 4], ["f", 8], ["f", 12], ["f", 16]],
+                                                          [["f", 4], ["f", 2], ["f", 12], ["f", 16]]),
+                ("<i8", [], _i(5), _i(6)), ("<i4", [2, 1, 2], _i(1, 2, 3, 4), _i(1, 2, 4, 3)),
+                ("|b1", [2], [["b", 1], ["b", 0]], [["b", 1], ["b", 1]]), ("<U1", [2], [["s", "a"], ["s", "b"]], [["s", "a"], ["s", "c"]])]
+    for dt, shape, items, other in ma_bases:
+        for mode in ("N", "F", "S"):
+            for a, b, c, d in zip(_wraps(_ma(dt, shape, items, mode)), _wraps(_ma(dt, shape, items, "A")),
+                                  _wraps(_ma(dt, shape, other, mode)), _wraps(["N", 0, dt, shape, items])):
+                pair(a, b, "nomask-equal")      # nomask vs explicit all-False mask
+                pair(b, a, "nomask-equal")
+                pair(a, c, "nomask-differ")     # both nomask, other data
+                pair(a, d, "nomask-vs-ndarray")  # MaskedArray vs plain ndarray of the same content
+    for _ in range(max(12, n // 8)):
+        a = g_ndarray(rng, masked=True)
+        while a[2] == "|O" or any(x[0] == "m" for x in a[4]) or not a[4]:
+            a = g_ndarray(rng, masked=True)
+        pair(a, relayout(rng, a), "nomask-equal")
+        nm = near_miss(rng, a[:5] + ["N"])
+        if nm is not None:
+            pair(a[:5] + [rng.choice(["N", "F", "S"])], nm, "nomask-near")
     # ---- re-keying after an in-place modification of the same object
     def rekey(v, path, new):
         cases.append({"kind": "rekey", "v": v, "w": _set(v, tuple(path), new), "path": list(path)})
